@@ -39,7 +39,7 @@ Put(f, k, v) == [x \in DOMAIN f \cup {k} |-> IF x = k THEN v ELSE f[x]]
 NoFn == [x \in {} |-> TRUE]
 SeqSet(s) == {s[i] : i \in DOMAIN s}
 
-NoCur == [ctl |-> "-", cmd |-> "-", injected |-> FALSE]
+NoCur == [ctl |-> "-", cmd |-> "-", injected |-> FALSE, rollback |-> FALSE]
 St0(cfg) == [cfg |-> cfg, claims |-> NoFn, nodes |-> NoFn, created |-> {}, everInit |-> {}, cmds |-> NoFn,
              stk |-> <<>>, mem |-> <<>>]
 
@@ -50,6 +50,15 @@ Cur(s) == IF s.stk = <<>> THEN NoCur ELSE s.stk[Len(s.stk)]
 Push(s, c) == [s EXCEPT !.stk = Append(@, c)]
 Pop(s) == [s EXCEPT !.stk = IF @ = <<>> THEN @ ELSE SubSeq(@, 1, Len(@) - 1)]
 Inject(s, b) == IF s.stk = <<>> \/ ~b THEN s ELSE [s EXCEPT !.stk[Len(s.stk)].injected = TRUE]
+\* a queue pass that touches a candidate's Node, patches a NodeClaim's status or re-reads a candidate NodeClaim is rolling its
+\* command back (the wait / terminate path only reads replacements and deletes candidates): the orchestrator has declared the
+\* command failed in this pass - whether or not it then lets go of it
+IsRollbackCall(s, ev) ==
+    /\ Cur(s).ctl = "queue" /\ ev.actor = "disruption.queue"
+    /\ \/ ev.kind = "Node"
+       \/ (ev.kind = "NodeClaim" /\ ev.verb = "patch")
+       \/ (ev.kind = "NodeClaim" /\ ev.verb = "get" /\ Cur(s).cmd \in DOMAIN s.cmds /\ ev.name \in s.cmds[Cur(s).cmd].cands)
+MarkRollback(s, ev) == IF s.stk # <<>> /\ IsRollbackCall(s, ev) THEN [s EXCEPT !.stk[Len(s.stk)].rollback = TRUE] ELSE s
 
 \* ------------------------------------------------------------------ store
 ClaimRec(p) == [exists |-> TRUE, init |-> p.initialized = "True", deleting |-> p.deleting, reason |-> p.disruptionReason # "Absent"]
@@ -112,7 +121,7 @@ TApi ==
            isQDelete == Ev.verb = "delete" /\ Ev.kind = "NodeClaim" /\ Ev.actor = "disruption.queue" /\ OwnersOf(st, Ev.name) # {}
            kd == IF isQDelete THEN OwnerOf(st, Ev.name) ELSE "-"
            \* 1. ghost updates that precede the store update
-           s1 == [Inject(st, Ev.injected) EXCEPT !.created = IF isCreate /\ ok THEN @ \cup {name} ELSE @]
+           s1 == [MarkRollback(Inject(st, Ev.injected), Ev) EXCEPT !.created = IF isCreate /\ ok THEN @ \cup {name} ELSE @]
            s2 == IF isCreate /\ inStart
                  THEN [s1 EXCEPT !.cmds[k0] = IF ok THEN [@ EXCEPT !.repl = @ \cup {name}] ELSE SetFailure(@, "create")]
                  ELSE s1
@@ -138,7 +147,7 @@ TApi ==
           /\ viol' = viol \o delChecks \o writeChecks \o (IF ok THEN StoreChecks(s3, Ev.kind, name, post) ELSE <<>>)
 
 TRead == /\ Ev.e = "Read"
-         /\ st' = Inject(st, Ev.injected)
+         /\ st' = MarkRollback(Inject(st, Ev.injected), Ev)
          /\ UNCHANGED viol
 
 TEnv == /\ Ev.e = "Env"
@@ -162,7 +171,7 @@ TBegin ==
     /\ LET ctl == MyCtl(Ev.controller)
            k == IF ctl \in {"start", "queue"} THEN Ev.object ELSE "-" IN
        st' = IF ctl = "other" THEN st
-             ELSE [Push(st, [ctl |-> ctl, cmd |-> k, injected |-> FALSE])
+             ELSE [Push(st, [ctl |-> ctl, cmd |-> k, injected |-> FALSE, rollback |-> FALSE])
                      EXCEPT !.cmds = IF ctl = "start" /\ k \in Known(st)
                                      THEN [@ EXCEPT ![k].state = "starting", ![k].startedAt = Ev.t]
                                      ELSE IF ctl = "queue" /\ k \in Known(st)
@@ -199,12 +208,16 @@ TEnd ==
        ELSE \* a pass of the disruption queue over command k
             LET cause == IF \E r \in c.repl : ~Claim(st, r).exists /\ r \notin st.everInit THEN "vanish"
                          ELSE IF Ev.t - c.startedAt > st.cfg.timeoutSec THEN "timeout" ELSE "other"
+                \* the failure verdict is permanent: declared when the queue lets go of the command as failed, or when the pass
+                \* started rolling it back (even if the command is then kept in the queue)
+                declared == Ev.outcome = "failed" \/ (Cur(st).rollback /\ Ev.outcome # "succeeded")
                 c2 == IF Ev.outcome = "failed" THEN SetFailure([c EXCEPT !.state = "failed"], cause)
+                      ELSE IF declared THEN SetFailure(c, cause)
                       ELSE IF Ev.outcome = "succeeded" THEN [c EXCEPT !.state = "succeeded"] ELSE c
                 recs == CandRecs(st, c) IN
             /\ st' = Pop([st EXCEPT !.cmds[k] = c2])
             /\ viol' = viol
-                 \o (IF Ev.outcome = "failed" /\ c.failure = "none"
+                 \o (IF declared /\ c.failure = "none"
                      THEN Chk(G_C08_NoDeleteAfterFailure(cause, c.deleted), "G_C08_NoDeleteAfterFailure", FailSig(c, cause, "del-first"))
                      ELSE <<>>)
                  \o (IF Ev.outcome = "failed" /\ ~Cur(st).injected
